@@ -1108,11 +1108,8 @@ where
 
     #[inline]
     async fn read_bytes_vec(&mut self) -> Result<Vec<u8>, ThriftException> {
-        let size = self.read_varint_async::<u32>().await? as usize;
-        // FIXME: use maybe_uninit?
-        let mut v = vec![0; size];
-        self.reader.read_exact(&mut v).await?;
-        Ok(v)
+        let size = self.read_varint_async::<u32>().await?;
+        super::read_wire_payload(&mut self.reader, size as i64).await
     }
 
     #[inline]
